@@ -129,7 +129,7 @@ def contract_models(S):
 
 def clause_transform(R):
     quick = R.tier != "thorough"
-    lengths = [1 << k for k in range(1, 11) if (1 << k) <= (256 if quick else 1024)]    # the property quantifies over n = 2..1024
+    lengths = [1 << k for k in range(1, 11) if (1 << k) <= 1024]    # all lengths in both tiers; the property quantifies over n = 2..1024
     prod_max = 16 if quick else 64
     S = Session()
     ctx = S.ctx
